@@ -1,0 +1,147 @@
+//go:build verif
+
+// Contracts for the deductive checker in /verif (comment-only; compiled only with -tags verif).
+// C11 (sequential part): every queued control request answers exactly once, and request arguments are
+// validated instead of crashing the server.
+//
+// A request is a closure that the RPC handler hands to the data loop (runLaterIfActive sends it on
+// queuedRequests and then waits for ONE value on queuedResults; both channels are unbuffered).  The data loop
+// runs the closure between two blocks.  If a closure sent twice on queuedResults the second send would
+// block the data loop forever; if it never sent, the RPC caller would wait forever.  Each closure is therefore
+// verified to perform exactly one send on s.queuedResults on every path (ghost send counter "sends").
+
+package dastard
+
+// The broadcast helpers publish on clientUpdates only (trusted: they call interface methods of the active source).
+//@ func (*SourceControl).broadcastTriggerState
+//@   trusted
+//@   modifies nothing
+//@ func (*SourceControl).broadcastStatus
+//@   trusted
+//@   modifies nothing
+//@ func (*SourceControl).broadcastWritingState
+//@   trusted
+//@   modifies nothing
+
+//@ func (*SourceControl).ConfigureTriggers$1
+//@   props C11
+//@   opt count_sends s.queuedResults
+//@   requires s != nil && s.ActiveSource != nil
+//@   ensures once: sends == 1
+//@   modifies any(SourceControl), any(ServerStatus), any(FullTriggerState), any(TriggerState), any(EMTState), any(EMTBackwardCompatibleRPCFields)
+//@ func (*SourceControl).ConfigureProjectorsBasis$1
+//@   props C11
+//@   opt count_sends s.queuedResults
+//@   requires s != nil && s.ActiveSource != nil && pbo != nil
+//@   ensures once: sends == 1
+//@   modifies any(SourceControl), any(ServerStatus)
+//@ func (*SourceControl).ConfigurePulseLengths$1
+//@   props C11
+//@   opt count_sends s.queuedResults
+//@   requires s != nil && s.ActiveSource != nil
+//@   ensures once: sends == 1
+//@   modifies any(SourceControl), any(ServerStatus)
+//@ func (*SourceControl).WriteControl$1
+//@   props C11
+//@   opt count_sends s.queuedResults
+//@   requires s != nil && s.ActiveSource != nil
+//@   ensures once: sends == 1
+//@   modifies any(SourceControl), any(ServerStatus), any(WriteControlConfig)
+//@ func (*SourceControl).SetExperimentStateLabel$1
+//@   props C11
+//@   opt count_sends s.queuedResults
+//@   requires s != nil && s.ActiveSource != nil && config != nil
+//@   ensures once: sends == 1
+//@   modifies any(SourceControl), any(ServerStatus)
+// (nosafety: ComputeWritingState is called through the DataSource interface, whose result the verifier cannot
+// know to be non-nil; the send count and the use of the file only after a successful Create are still checked)
+//@ func (*SourceControl).WriteComment$1
+//@   props C11
+//@   nosafety
+//@   opt count_sends s.queuedResults
+//@   requires s != nil && s.ActiveSource != nil && comment != nil
+//@   ensures once: sends == 1
+//@   modifies any(SourceControl), any(ServerStatus), any(os.File)
+//@ func (*SourceControl).CoupleErrToFB$1
+//@   props C11
+//@   opt count_sends s.queuedResults
+//@   requires s != nil && s.ActiveSource != nil && couple != nil
+//@   ensures once: sends == 1
+//@   modifies any(SourceControl), any(ServerStatus)
+//@ func (*SourceControl).CoupleFBToErr$1
+//@   props C11
+//@   opt count_sends s.queuedResults
+//@   requires s != nil && s.ActiveSource != nil && couple != nil
+//@   ensures once: sends == 1
+//@   modifies any(SourceControl), any(ServerStatus)
+//@ func (*SourceControl).changeGroupTriggerCoupling$1
+//@   props C11
+//@   opt count_sends s.queuedResults
+//@   requires s != nil && s.ActiveSource != nil
+//@   ensures once: sends == 1
+//@   modifies any(SourceControl), any(ServerStatus), any(GroupTriggerState)
+//@ func (*SourceControl).StopTriggerCoupling$1
+//@   props C11
+//@   opt count_sends s.queuedResults
+//@   requires s != nil && s.ActiveSource != nil
+//@   ensures once: sends == 1
+//@   modifies any(SourceControl), any(ServerStatus)
+//@ func (*SourceControl).StoreRawDataBlock$1
+//@   props C11
+//@   opt count_sends s.queuedResults
+//@   requires s != nil && s.ActiveSource != nil
+//@   ensures once: sends == 1
+//@   modifies any(SourceControl), any(ServerStatus)
+
+// ---- argument validation: no request content can crash the data loop ----
+// ProcsReady: one processor per channel (set up by PrepareRun).
+//@ pred ProcsReady(ds *AnySource) := allocated(ds.processors) && len(ds.processors) == ds.nchan
+//@     && (forall p int :: {at(ds.processors, p)} ds.processors.off <= p && p < ds.processors.off + len(ds.processors) ==> at(ds.processors, p) != nil && allocated(at(ds.processors, p))
+//@           && at(ds.processors, p).NSamples < 1000000000 && at(ds.processors, p).NPresamples < 1000000000 && at(ds.processors, p).NSamples > -1000000000 && at(ds.processors, p).NPresamples > -1000000000)
+
+//@ func (*AnySource).ChangeTriggerState
+//@   props C11
+//@   requires ProcsReady(ds) && state != nil && allocated(state.ChannelIndices)
+//@   ensures rejects: (exists k int :: 0 <= k && k < len(state.ChannelIndices) && (state.ChannelIndices[k] < 0 || state.ChannelIndices[k] >= ds.nchan)) ==> result != nil
+//@   ensures empty: len(state.ChannelIndices) == 0 ==> result != nil
+//@   modifies any(DataStreamProcessor), any(DataStreamProcessor).gemitted, any(TriggerState), any(EMTState), any(EMTBackwardCompatibleRPCFields)
+//@   loop 1
+//@     invariant -1 <= rangeindex && rangeindex <= len(state.ChannelIndices) - 1 && ProcsReady(ds) && unchanged(state.ChannelIndices, ds.nchan, ds.processors)
+//@     invariant checked: forall k int :: {state.ChannelIndices[k]} 0 <= k && k <= rangeindex ==> 0 <= state.ChannelIndices[k] && state.ChannelIndices[k] < ds.nchan
+//@   loop 2
+//@     invariant -1 <= rangeindex && rangeindex <= len(state.ChannelIndices) - 1 && ProcsReady(ds) && unchanged(state.ChannelIndices, ds.nchan, ds.processors)
+//@     invariant checked: forall k int :: {state.ChannelIndices[k]} 0 <= k && k < len(state.ChannelIndices) ==> 0 <= state.ChannelIndices[k] && state.ChannelIndices[k] < ds.nchan
+
+// Projectors whose dimensions do not fit the record length are refused, never installed.
+//@ func (*DataStreamProcessor).SetProjectorsBasis
+//@   props C11
+//@   requires projectors != nil && basis != nil
+//@   ensures fits: result == nil ==> dsp.projectors == projectors && dsp.basis == basis && dims1(projectors) == dsp.NSamples && dims1(basis) == dims0(projectors) && dims0(basis) == dsp.NSamples
+//@   ensures refused: result != nil ==> unchanged(dsp.projectors, dsp.basis, dsp.modelDescription)
+//@   modifies dsp.projectors, dsp.basis, dsp.modelDescription
+
+//@ func (*AnySource).ConfigureProjectorsBases
+//@   props C11
+//@   requires ProcsReady(ds) && projectors != nil && basis != nil
+//@   ensures rejects: channelIndex < 0 || channelIndex >= len(ds.processors) ==> result != nil
+//@   modifies any(DataStreamProcessor).projectors, any(DataStreamProcessor).basis, any(DataStreamProcessor).modelDescription
+
+//@ func (*AnySource).ConfigurePulseLengths
+//@   props C11 C02
+//@   requires ProcsReady(ds) && nsamp < 1000000000
+//@   ensures rejects: npre < 3 || nsamp < npre + 1 ==> result != nil
+//@   ensures applied: result == nil ==> (forall p int :: {at(ds.processors, p)} ds.processors.off <= p && p < ds.processors.off + len(ds.processors) ==> at(ds.processors, p).NSamples == nsamp && at(ds.processors, p).NPresamples == npre)
+//@   modifies any(DataStreamProcessor).NSamples, any(DataStreamProcessor).NPresamples, any(EMTState), any(DataStreamProcessor).gfront, any(DataStreamProcessor).projectors, any(DataStreamProcessor).basis, any(DataStreamProcessor).modelDescription
+//@   loop 1
+//@     invariant -1 <= rangeindex && rangeindex <= len(ds.processors) - 1 && unchanged(ds.processors, ds.nchan) && allocated(ds.processors) && npre >= 3 && nsamp >= npre + 1
+//@     invariant procs: forall p int :: {at(ds.processors, p)} ds.processors.off <= p && p < ds.processors.off + len(ds.processors) ==> at(ds.processors, p) != nil && allocated(at(ds.processors, p))
+//@     invariant done: forall p int :: {at(ds.processors, p)} ds.processors.off <= p && p <= ds.processors.off + rangeindex ==> at(ds.processors, p).NSamples == nsamp && at(ds.processors, p).NPresamples == npre
+
+// The sequential protocol of a queued request: not active -> error without queueing; otherwise the closure is
+// handed over and exactly one result is awaited.
+//@ func (*SourceControl).runLaterIfActive
+//@   props C11
+//@   opt count_sends s.queuedRequests
+//@   ensures inactive: !old(s.isSourceActive) ==> result != nil && sends == 0
+//@   ensures queued: old(s.isSourceActive) ==> sends == 1
+//@   modifies nothing
